@@ -88,7 +88,7 @@ fn symbolic_member(cfg: Cfg, rng: &mut impl RngCore) -> Option<Member> {
     };
     let proof = Parts::from_ref(&rp).to_proof().ok()?;
     let st = RangeStatement::init(prm.clone(), commitments.clone(), promises.clone(), None).ok()?;
-    let rst = ref_statement_of(&prm, cfg.m, &commitments, &promises);
+    let rst = ref_statement_documented(&prm, cfg.m, &commitments, &promises);
     Some(Member { cfg, ctx: Context::random(rng), st, rst, proof, rp, family: Family::Symbolic })
 }
 
@@ -133,7 +133,7 @@ fn honest_member(cfg: Cfg, replace_one: bool, k: usize, rng: &mut impl RngCore) 
     }
     let prm = case.params();
     let st = RangeStatement::init(prm.clone(), commitments.clone(), case.promises.clone(), None).ok()?;
-    let rst = ref_statement_of(&prm, cfg.m, &commitments, &case.promises);
+    let rst = ref_statement_documented(&prm, cfg.m, &commitments, &case.promises);
     Some(Member { cfg, ctx: case.ctx.clone(), st, rst, proof, rp, family })
 }
 
